@@ -87,7 +87,7 @@ def generate(tier, rng):
         t = gen.labelled(gen.random_shape(rng, n), rng, True)
         labs = gen.tree_labels(t)
         tups = [[rng.choice(labs) for _ in range(rng.choice([2, 2, 3, 4]))] for _ in range(12)]
-        yield {"fam": "nav", "trees": [t], "ca": tups, "cls": rng.choice(["nm", "light", "eq", "falsy"])}
+        yield {"fam": "nav", "trees": [t], "ca": tups, "cls": rng.choice(["nm", "light", "eq", "falsy", "links"])}
         if rng.random() < 0.5:
             # a class overriding the public `children` attribute (a sorted view of the stored list)
             yield {"fam": "nav", "trees": [_sorted_tree(t)], "ca": tups, "cls": "sortedview"}
@@ -104,7 +104,7 @@ def generate(tier, rng):
         kids = [c[0] for c in par[1]]
         if len(kids) >= 2:
             tups += [kids[:2], kids[-2:], kids[:3]]
-        yield {"fam": "nav", "trees": [t], "ca": tups, "cls": rng.choice(["nm", "light", "eq", "falsy"])}
+        yield {"fam": "nav", "trees": [t], "ca": tups, "cls": rng.choice(["nm", "light", "eq", "falsy", "links"])}
     for _ in range(150 if tier == "quick" else 2500):
         n0 = rng.randrange(3, 7)
         fl = rng.choice(["nm", "light"])
